@@ -86,7 +86,9 @@ def describe(t):
 
 
 def field_stores(fn):
-    """{'.a.b': [(bb, term)]} for every assignment through a projection of a local (field stores)"""
+    """{'.a.b': [(bb, term)]} for every assignment through a projection of a local (field stores).  A store through a
+    reference that was taken of a field (`let cfg = &mut ctx.cfg; cfg.chain_id = ..`, or the same through a helper's
+    `&mut CfgEnv` parameter after inlining) is reported under the full path `.cfg.chain_id`."""
     out = {}
     for bi, b in enumerate(fn.blocks):
         if b.get("cleanup"):
@@ -95,6 +97,19 @@ def field_stores(fn):
             if s["k"] == "assign" and s["lhs"].get("p"):
                 path = "".join(e for e in s["lhs"]["p"] if e.startswith("."))
                 if path:
+                    if s["lhs"]["p"][0] == "*":
+                        base = origin(fn, {"l": s["lhs"]["l"], "k": "copy"})
+                        pre = []
+                        t = base
+                        for _ in range(12):
+                            if t[0] in ("ref", "deref", "cast"):
+                                t = t[1]
+                            elif t[0] == "field" and isinstance(t[2], str) and t[2].startswith("."):
+                                pre.insert(0, t[2])
+                                t = t[1]
+                            else:
+                                break
+                        path = "".join(pre) + path
                     out.setdefault(path, []).append((bi, rvalue_origin(fn, s["rv"], 0, frozenset(), 40)))
     return out
 
